@@ -67,6 +67,8 @@ inductive WErr where
   | panic
   /-- model artefact: fuel of the tape walk exhausted (never happens with the fuel `writeTape` passes) -/
   | fuel
+  /-- `ErrorKind::Io`: the sink refused bytes (only the failing-sink model of Model/WriterSink.lean produces it) -/
+  | io
   deriving DecidableEq, Repr
 
 /-- writer.rs:13 `TextWriter` (sink = `out`; `indents` is `[indent_char; 16]`). -/
